@@ -112,8 +112,10 @@ MUTANTS = {
 }
 
 def main():
-    shutil.rmtree(OUT, ignore_errors=True)
-    os.makedirs(OUT)
+    os.makedirs(OUT, exist_ok=True)
+    for f in os.listdir(OUT):
+        if f.endswith(".patch"):
+            os.remove(os.path.join(OUT, f))
     wt = tempfile.mkdtemp(prefix="pfmut-", dir="/tmp")
     subprocess.run(["git", "-C", "/repo", "worktree", "add", "--detach", "-f", wt, "HEAD"], check=True, capture_output=True)
     index = {}
